@@ -22,6 +22,11 @@ Clauses (bands frozen in vlib/c10_band.json after calibration on the unchanged t
   A1  median over seeds of estimated / injected noise inside [0.5, 3.0]
   A2  (cells at the lowest noise level that have a bundled *_INVALID counterpart, same seeds)
       median over seeds of chi2(invalid) / chi2(valid) >= 5
+ history cells ("<cell>/after-session"): the >= 8 runs of a cell executed back to back in ONE process after a preamble of other
+      spectra - the other bundled spectra with the SAME number of points (different window) in random order plus two arbitrary
+      ones; ladder sessions use spectra that all have the same number of points but different windows.  The same A0-A2 clauses
+      decide; an analysis must not depend on what the process analysed before.  (Round-robin sharding gives every other run a
+      mixed history too, but a history-dependent deviation is then diluted below the cell clauses - seeded change c10-r3.)
  pooled over >= 400 points with independent seeds (noise model of the mock data, the premise of the statement)
   A3  the realised noise  (Z_noisy - Z_ideal) / (pct/100 * |Z_ideal|)  has rms 1 and mean 0 in the real and in the
       imaginary part, also on the subsets of points where |Re Z| < |Z|/2 and where |Im Z| < |Z|/2
@@ -52,7 +57,8 @@ RULE = (
     "circuits (R0 + 1..4 (RC)|(RQ) stages, time constants >= 0.6 decade apart inside the window, 4..7 decades at 10 points/"
     "decade; thorough also 'wide': up to 5 stages, 8|10|12 points/decade, time constants up to 0.1 decade from the window edge) "
     "passed to generate_mock_data as circuit description codes, every run a different circuit; the noise model is probed on all "
-    "35 bundled definitions x 4 levels x 8 (24) seeds. Every run executes the default "
+    "35 bundled definitions x 4 levels x 8 (24) seeds; history cells: 2 bundled + 1 ladder session (thorough: 13 + 4) whose runs "
+    "follow a preamble of same-length spectra with other windows in the same process. Every run executes the default "
     "perform_kramers_kronig_test(num_procs=1) with recorders on single.suggest_num_RC / suggest_representation. A run is "
     "non-trivial when the test returned a result and the limits were observed; distinct = distinct (identifier, noise, seed)."
 )
@@ -140,10 +146,10 @@ def shard_report():
 # ------------------------------------------------------------------------------------------------
 # ladder circuits (generator knows the circuit; the library adds the noise)
 # ------------------------------------------------------------------------------------------------
-def gen_ladder(rng, family, wide=False):
+def gen_ladder(rng, family, wide=False, span=None):
     """R0 + n x (R C) | (R Q) with time constants inside the measured window. Returns the kwargs of a run."""
     log_max_f = float(rng.integers(3, 7))
-    span = float(rng.integers(4, 8))
+    span = float(rng.integers(4, 8)) if span is None else float(span)
     log_min_f = log_max_f - span
     ppd = 10 if not wide else int(rng.choice([8, 10, 12]))
     margin = 0.5 if not wide else 0.1
@@ -186,6 +192,57 @@ def _mock_run(cid, noise, s, invalid=False, cell=None, explore=False):
     return {"kind": "run", "family": "mock", "ident": cid + ("_INVALID" if invalid else ""), "base": cid, "invalid": bool(invalid),
             "noise": float(noise), "seed": int(s), "kwargs": {}, "cell": cell or f"{cid}@{noise:g}", "explore": bool(explore),
             "cost": _COST.get(k, 60)}
+
+
+# bundled spectra grouped by number of points: members of a group differ only in the frequency window, which is the hostile
+# history for anything the library keeps between calls keyed by shape
+N_GROUPS = [[1, 5, 12, 13, 14], [3, 9], [7, 17, 19], [10, 11], [15, 16]]
+SESSION = "/after-session"
+
+
+def gen_sessions(tier, seed):
+    """History cells: the runs of one cell executed back to back in ONE process after a preamble of other spectra (the other
+    bundled spectra with the same number of points in random order, then two arbitrary ones); judged by the same A0-A2 clauses."""
+    out = []
+    rng = np.random.default_rng([int(seed), 10, 9])
+    members = [m for g in N_GROUPS for m in g]
+    if tier == "quick":
+        targets = [int(x) for x in rng.permutation(members)[:2]]
+        levels = [LOWEST, NOISE_LEVELS[1 + int(seed) % 3]]
+        n_lad = 1
+    else:
+        targets = [int(x) for x in rng.permutation(members)]
+        levels = [LOWEST if i % 2 == 0 else NOISE_LEVELS[1 + (i // 2 + int(seed)) % 3] for i in range(len(targets))]
+        n_lad = 4
+    for j, (t, noise) in enumerate(zip(targets, levels)):
+        grp = next(g for g in N_GROUPS if t in g)
+        pre = [int(x) for x in rng.permutation([m for m in grp if m != t])]
+        pre += [int(x) for x in rng.permutation([m for m in range(1, N_VALID + 1) if m not in grp])[:2]]
+        cid = f"CIRCUIT_{t}"
+        pre_s = _seeds(seed, (9, j, 0), len(pre))
+        runs = []
+        for s_ in _seeds(seed, (9, j, 1), MIN_SEEDS):
+            runs.append(_mock_run(cid, noise, s_, cell=f"{cid}@{noise:g}{SESSION}"))
+            if noise == LOWEST and t <= N_DRIFT:
+                runs.append(_mock_run(cid, noise, s_, invalid=True, cell=f"{cid}_INVALID@{noise:g}{SESSION}"))
+        out.append({"kind": "session", "name": f"{cid}@{noise:g}", "cost": 10000 - j,
+                    "preamble": [_mock_run(f"CIRCUIT_{m}", noise, s_, cell="session-preamble") for m, s_ in zip(pre, pre_s)],
+                    "runs": runs})
+    # ladder sessions: every spectrum has the same number of points but a different window
+    for j in range(n_lad):
+        fam = ["RC", "RQ", "mixed"][(int(seed) + j) % 3]
+        noise = NOISE_LEVELS[(int(seed) + j) % 4]
+        span = int(rng.integers(4, 7))
+        lrng = np.random.default_rng([int(seed), 10, 9, 5, j])
+
+        def lad(cell, s_):
+            d = gen_ladder(lrng, fam, span=span)
+            return {"kind": "run", "family": "ladder", "base": f"ladder-{fam}", "invalid": False, "noise": noise, "seed": s_,
+                    "cell": cell, "explore": False, **d}
+        pre = [lad("session-preamble", s_) for s_ in _seeds(seed, (9, 5, j, 0), 5)]
+        runs = [lad(f"ladder-{fam}/same-N@{noise:g}{SESSION}", s_) for s_ in _seeds(seed, (9, 5, j, 1), MIN_SEEDS)]
+        out.append({"kind": "session", "name": f"ladder-{fam}/same-N@{noise:g}", "cost": 9000 - j, "preamble": pre, "runs": runs})
+    return out
 
 
 def gen_cases(tier, seed):
@@ -239,6 +296,7 @@ def gen_cases(tier, seed):
                         cases.append({"kind": "run", "family": "ladder", "base": f"ladder-{fam}", "invalid": False, "noise": noise,
                                       "seed": s, "cell": f"ladder-{fam}{'-wide' if wide else ''}@{noise:g}", "explore": i % 6 == 0, **lad})
         nm_seeds = 24
+    cases += gen_sessions(tier, seed)
     # heavy runs first so that the round-robin sharding is balanced
     cases.sort(key=lambda c: -c.get("cost", 0))
     # noise model of the mock data (cheap, no KK test): every bundled definition x every noise level
@@ -324,8 +382,14 @@ def run_one(case):
     recorded = [r for r in _REC if r[0] == "num_RC"]
     del _REC[:]
     est = float(res.get_estimated_percent_noise())
-    rec.update(est=est, ratio=est / pct, num_RC=int(res.num_RC), adm=bool(res.admittance), chi2=float(res.pseudo_chisqr),
-               log_F_ext=float(res.get_log_F_ext()))
+    try:
+        lfe = float(res.get_log_F_ext())
+    except Exception:
+        # the accessor refuses a result whose low/high extensions differ; that is not what C10 states, so it is only counted and
+        # the band/detection clauses below decide
+        lfe = float("nan")
+        monitors.count("log_F_ext_accessor_raised")
+    rec.update(est=est, ratio=est / pct, num_RC=int(res.num_RC), adm=bool(res.admittance), chi2=float(res.pseudo_chisqr), log_F_ext=lfe)
     if same_grid:
         Zf = res.get_impedances()
         if len(Zf) == len(Zi):
@@ -431,12 +495,51 @@ def run_case(case):
                 recs.append(r["agg"])
                 viol += r["viol"]
                 continue
+            if c["kind"] == "session":
+                r = run_session(c)
+                recs += [dict(a["rec"]) for a in r["agg"]["items"] if a.get("rec") is not None]
+                viol += r["viol"]
+                continue
             rec, v = run_one(c)
             viol += v
             if rec is not None:
                 recs.append(rec)
         fin = _aggregate(recs, case.get("planned"))
         return {"evals": len(recs), "viol": viol + fin["viol"], "stats": {"replayed_runs": len(recs)}, "sample": fin["info"]}
+    if case["kind"] == "session":
+        return run_session(case)
+    return _run_result(case)
+
+
+def run_session(case):
+    """Preamble (only the per-run clauses R1/R2 are applied to it), then the cell's runs; one process, no reset in between."""
+    viol, aggs, stats, maxobs, keys, evals = [], [], {"sessions": 1}, {}, [], 0
+    sess = {k: v for k, v in case.items() if k != "cost"}
+    for c in case["preamble"]:
+        rec, v = run_one(c)
+        viol += v
+        stats["session_preamble_runs"] = stats.get("session_preamble_runs", 0) + 1
+    for c in case["runs"]:
+        r = _run_result(c)
+        viol += r["viol"]
+        evals += r["evals"]
+        keys += r["keys"]
+        for k, v in r["stats"].items():
+            stats[k] = stats.get(k, 0) + v
+        for k, v in r["maxobs"].items():
+            maxobs[k] = max(maxobs.get(k, v), v)
+        a = r["agg"]
+        if a.get("rec") is not None:
+            a["rec"]["session"] = sess
+            stats["session_runs_completed"] = stats.get("session_runs_completed", 0) + 1
+        aggs.append(a)
+    for v in viol:
+        v.setdefault("witness", {})["replay_case"] = sess
+    return {"evals": evals, "keys": keys, "viol": viol, "stats": stats, "maxobs": maxobs, "sample": None,
+            "agg": {"kind": "session", "items": aggs}}
+
+
+def _run_result(case):
     rec, viol = run_one(case)
     stats = {f"run:{case['family']}{':invalid' if case['invalid'] else ''}": 1}
     maxobs = {}
@@ -501,6 +604,9 @@ def _aggregate(items, planned_cells=None):
         cases_of.setdefault(r["cell"], []).append(
             {"kind": "run", "family": r["family"], "ident": r["ident"], "base": r["base"], "invalid": r["invalid"], "noise": r["noise"],
              "seed": r["seed"], "kwargs": r.get("kwargs", {}), "cell": r["cell"], "explore": False})
+    for cell, rs in cells.items():  # a history cell is replayed with its history
+        if rs and rs[0].get("session"):
+            cases_of[cell] = [rs[0]["session"]]
     n_a1 = n_a2 = 0
     for cell, rs in sorted(cells.items()):
         invalid = bool(rs and rs[0]["invalid"])
@@ -538,7 +644,7 @@ def _aggregate(items, planned_cells=None):
                          "witness": {"cell": cell, "ratios": [float(x) for x in ratios],
                                      "replay_case": {"kind": "cells", "runs": cases_of.get(cell, [])}}})
         # A2 drift
-        icell = f"{rs[0]['base']}_INVALID@{rs[0]['noise']:g}"
+        icell = f"{rs[0]['base']}_INVALID@{rs[0]['noise']:g}" + (SESSION if cell.endswith(SESSION) else "")
         if rs[0]["noise"] == LOWEST and icell in cells and rs[0]["family"] == "mock":
             inv = {r["seed"]: r for r in cells[icell]}
             pairs = [(r, inv[r["seed"]]) for r in rs if r["seed"] in inv]
@@ -555,7 +661,8 @@ def _aggregate(items, planned_cells=None):
                                  "msg": f"{rs[0]['base']} at {LOWEST} % noise: median over {len(pairs)} seeds of chi2(invalid)/chi2(valid) = {mq:.3g} "
                                         f"(per-seed {q.min():.3g}..{q.max():.3g}) < {DRIFT_MIN}",
                                  "witness": {"cell": icell, "ratios": [float(x) for x in q],
-                                             "replay_case": {"kind": "cells", "runs": cases_of.get(cell, []) + cases_of.get(icell, [])}}})
+                                             "replay_case": {"kind": "cells", "runs": cases_of.get(cell, []) + (
+                                                 [] if cell.endswith(SESSION) else cases_of.get(icell, []))}}})
     # A3 noise model: pooled per identifier over the dedicated probes, and globally per subset
     nm = {}
     for it in items:
@@ -601,10 +708,11 @@ def finalize(agg):
     for a in agg["aggs"]:
         if a.get("kind") == "noise_model":
             items.append(a)
-        elif a.get("kind") == "run":
-            planned.add(a["planned"]["cell"])
-            if a.get("rec") is not None:
-                items.append(dict(a["rec"]))
+        elif a.get("kind") in ("run", "session"):
+            for b in (a["items"] if a["kind"] == "session" else [a]):
+                planned.add(b["planned"]["cell"])
+                if b.get("rec") is not None:
+                    items.append(dict(b["rec"]))
     fin = _aggregate(items, sorted(planned))
     inc = list(fin["inconclusive"])
     st = agg["stats"]
